@@ -235,7 +235,11 @@ class Prop:
                 op = {"k": "probe", "o": r.randrange(npool + 2), "name": r.choice(["value", "label"])}
             else:
                 op = G.gen_graph_op(r, npool)
-                if r.random() < 0.05:
+                if r.random() < 0.04:
+                    op = {"k": "redefine", "o": r.randrange(npool + 1),
+                          "name": r.choice(["value", "child", "children", "children", "table",
+                                            "group"])}
+                elif r.random() < 0.05:
                     op = {"k": "del_attr", "o": r.randrange(npool + 1),
                       "name": r.choice(["child", "children", "children", "table", "group"])}
                 if shared_container and r.random() < 0.5:
@@ -275,6 +279,7 @@ class Prop:
         self._pushed = False
         world = G.World(env, cfg["npool"])
         world.del_enabled = True
+        world.redefine_enabled = True
         self._world = world
         sched = Sched(env)
         self._sched = sched
